@@ -62,6 +62,22 @@ StillBad(cfg, S, bid) ==
 StillBadLiquid(cfg, S, bid) ==
   /\ StillBad(cfg, S, bid)
   /\ LET b == GetId(S.m.borrows, bid) IN PB(S.m, GetId(S.m.lends, b.lend).pool, b.ca).amt >= b.cin
+(* first generation (x/liquidation LiquidateBorrows; no whitelisting there): open, not under liquidation, unsafe, circuit breaker off *)
+StillBadV1(cfg, S, bid) ==
+  /\ cfg.v1 /\ HasId(S.m.borrows, bid) /\ ~S.x.ks
+  /\ LET b == GetId(S.m.borrows, bid) IN ~b.liq /\ ~b.uv /\ ~b.ho /\ HasId(S.m.lends, b.lend) /\ UnsafeWith(cfg, S.m, b, b.iT)
+(* the first-generation sell-off (debt - c*collateral)/(1 - b*c), b = 1 + penalty + bonus, stays within the pledged collateral iff debt value * b <= collateral value *)
+WithinCollateralV1(cfg, m, b) ==
+  LET a == AssetC(cfg, b.ca)
+      pen == IF PairC(cfg, b.pair).emode THEN a.epen ELSE a.pen
+      den == pen[2] * a.bonus[2]
+      num == den + pen[1] * a.bonus[2] + a.bonus[1] * pen[2] IN
+  ValueLe(b.out + Max0(b.iT), PriceRec(m, b.oa).p, AssetC(cfg, b.oa).dec, b.cin, PriceRec(m, b.ca).p, a.dec, <<den, num>>, One)
+(* ... whose collateral pool holds the pledged coins and whose sell-off stays within the pledged collateral. NAMED DEVIATIONS: the pool's coins can be lent   *)
+(* or bridged out, and an underwater position's uncapped sell-off can exceed what the pool holds; the transfer then fails and the sweep item is skipped.      *)
+StillBadV1Liquid(cfg, S, bid) ==
+  /\ StillBadV1(cfg, S, bid)
+  /\ LET b == GetId(S.m.borrows, bid) IN PB(S.m, GetId(S.m.lends, b.lend).pool, b.ca).amt >= b.cin /\ WithinCollateralV1(cfg, S.m, b)
 (* length of the list the borrow sweep walks (x/lend GetBorrows: all borrow ids of all pool statistics) *)
 SweepLen(S) == SumOver(S.m.stats, LAMBDA x : Len(x.bids))
 
